@@ -584,7 +584,15 @@ static R LPFreadValue(char*& pos, SPxOut* spxout)
       // the token may be longer than any fixed-size buffer
       tmp.assign((const char*)pos, s);
       pos += s - pos;
-      value = atof(tmp.c_str());
+      double dval = atof(tmp.c_str());
+
+      // a literal with a huge exponent overflows to an IEEE infinity, which is not a value SoPlex works with
+      if(dval > std::numeric_limits<double>::max())
+         value = R(infinity);
+      else if(dval < -std::numeric_limits<double>::max())
+         value = R(-infinity);
+      else
+         value = dval;
    }
 
    pos += s - pos;
